@@ -13,6 +13,7 @@ fn main() {
     let out = match cmd {
         "frames-replay" => frames::replay(rest),
         "frames-record" => frames::record(rest),
+        "packets-record" => frames::record_packets(rest),
         "cc-run" => cc::run(rest),
         "reasm-replay" => reasm::replay(rest),
         "reasm-record" => reasm::record(rest),
